@@ -8,6 +8,7 @@ CONSTANTS
     FIX_BODY = TRUE
     FIX_TLS13 = TRUE
     FIX_NOUSER = TRUE
+    FIX_XFF = TRUE
 INVARIANTS TypeOK VocabularyComplete ValueEqualsFunction OriginalVsRewritten EscapedFormsAreEscapes LogSafe HeaderSafe
            BodyUntouched TimeMonotone TLSFieldsExact CustomBeatsBuiltin Emit EmitVocab
 CHECK_DEADLOCK FALSE
